@@ -49,7 +49,7 @@ func c01r1(r *R) {
 		if e1 == "nil" {
 			o.AtI(i).Check(strings.HasPrefix(e0, "ja3.DigestHex(&") && guardOkOn(gs, "Unmarshal("), "JA3Fingerprint returns %s under %v, want ja3.DigestHex(<hello parsed in this call>) on the parse-success edge", e0, gs)
 			if call, ok := ret.Results[0].(*ssa.Call); ok && len(um) == 1 {
-				o.Check(call.Call.Args[0] == callOf(um[0]).Args[0], "the digest is computed from a different hello than the one parsed")
+				o.Check(refineAt(call.Call.Args[0], call.Block()) == callOf(um[0]).Args[0], "the digest is computed from a different hello than the one parsed")
 			}
 		} else {
 			o.AtI(i).Check(e0 == `""`, "error return carries value %s", e0)
